@@ -1,6 +1,6 @@
 (* Top-level dispatcher of the extracted model: first token selects the domain. *)
 From Coq Require Import List NArith Bool String.
-From PyFS Require Import Base.PyStr Base.Render Path.PathRun FS.Ops FS.FsRun Run.RunMisc.
+From PyFS Require Import Base.PyStr Base.Render Path.PathRun FS.Ops FS.FsRun Run.RunMisc Run.RunGlobRe.
 Import ListNotations.
 Local Open Scope string_scope.
 
@@ -15,6 +15,7 @@ Definition dispatch (tokens : list str) : str :=
     else if is_name dom "route" then run_route name args
     else if is_name dom "data" then run_data name args
     else if is_name dom "sandbox" then run_sandbox name args
+    else if is_name dom "globre" then run_globre name args
     else lit "?domain"
   | _ => lit "?empty"
   end.
